@@ -216,7 +216,11 @@ func (l *Gradient2Limit) OnSample(startTime int64, rtt int64, inFlight int, didD
 	// so set to 1.0 to indicate no queuing.  Otherwise calculate the slope and don't
 	// allow it to be reduced by more than half to avoid aggressive load-shedding due to
 	// outliers.
-	gradient := math.Max(0.5, math.Min(1.0, longRTT/shortRTT))
+	// a zero RTT carries no latency information; 0/0 would make the gradient NaN
+	gradient := 1.0
+	if shortRTT > 0 {
+		gradient = math.Max(0.5, math.Min(1.0, longRTT/shortRTT))
+	}
 	newLimit := l.estimatedLimit*gradient + float64(queueSize)
 	newLimit = l.estimatedLimit*(1-l.smoothing) + newLimit*l.smoothing
 	newLimit = math.Max(float64(l.minLimit), math.Min(float64(l.maxLimit), newLimit))
